@@ -45,9 +45,9 @@ RULE = ("histories over a population of memory storages (main + derived); distin
         "history (init, operation list); tracker sub-check: distinct = whole case")
 ASSUMPTIONS = [
     "the fields of one history have different dtypes (int64 for single fields, float64, "
-    "complex128; small integer values, so int -> float -> complex casts are exact). A stored frame "
-    "keeps the dtype and values it had when appended, whatever was stored before (storage.data[i] "
-    "is compared exactly in every state); a field read (storage[i], slices, iteration, items(), "
+    "complex128; small multiples of 1/2, so int -> float -> complex casts are exact). A stored frame "
+    "keeps the values it had when appended, whatever was stored before (storage.data[i] is compared "
+    "by value in every state; the dtype in which a frame is kept is not asserted); a field read (storage[i], slices, iteration, items(), "
     "view_field, and therefore copy/apply) is the frame assigned into a copy of the template of "
     "the last successful start_writing, so it has that template's dtype. On the unchanged tree "
     "this round-trips exactly whenever the frame's dtype casts safely to the template's dtype "
@@ -187,9 +187,11 @@ def template_of(spec, gspecs, dtype):
 
 
 def spec_array(spec, gspecs, dtype, seed=None):
+    """small integers (int64) or multiples of 1/2 (float64, complex128: real and imaginary
+    part), so that casts to a wider dtype are exact and casts to a narrower one are not"""
     shape = spec_shape(spec, gspecs[spec["grid"]])
-    return np.array(gen_grids.rng_array(spec["seed"] if seed is None else seed, shape, dtype, dist="int"),
-                    dtype=np_dtype(dtype))
+    return np.array(gen_grids.rng_array(spec["seed"] if seed is None else seed, shape, dtype, dist="int",
+                                        scale=1.0 if dtype == "i8" else 0.5), dtype=np_dtype(dtype))
 
 
 def build_field(spec, grids, arr, dtype):
@@ -298,6 +300,7 @@ class Model:
         self.frames = [] if frames is None else frames  # list of [time, array]
         self.open = is_open
         self.related = False  # related to another storage by extract_time_range
+        self.cleared = False  # clear() was called since the last start_writing
 
     @property
     def times(self):
@@ -503,15 +506,13 @@ class StorageHistory(History):
                              f"{self.ctx}:has_collection-empty")
         if len(s.data) != n:
             self.fail("len", f"{origin}: len(data) {len(s.data)} expected {n}", si)
-        # the stored frames themselves keep dtype and values of the appended field
+        # the stored frames themselves have the values of the appended field, whatever the
+        # template is (compared by value: the dtype in which a frame is kept is not prescribed)
         for i in range(n):
-            raw, want = s.data[i], m.frames[i][1]
-            if not isinstance(raw, np.ndarray) or raw.dtype != want.dtype:
-                self.fail("stored-dtype", f"{origin}: storage.data[{i}] has dtype "
-                          f"{getattr(raw, 'dtype', type(raw))}, the appended data had {want.dtype}", si)
+            raw, want = np.asarray(s.data[i]), m.frames[i][1]
             if not same_array(raw, want):
-                self.fail("stored-data", f"{origin}: storage.data[{i}] is {raw.tolist()}, appended was "
-                          f"{want.tolist()}", si)
+                self.fail("stored-data", f"{origin}: storage.data[{i}] is {raw.tolist()} ({raw.dtype}), the "
+                          f"appended data was {want.tolist()} ({want.dtype})", si)
         got = []
         with quiet_if(m.lossy()):
             for i in range(n):
@@ -537,6 +538,8 @@ class StorageHistory(History):
         self.max_frames = max([self.max_frames] + [len(m.frames) for _, m, _ in self.stores])
         for si in range(len(self.stores)):
             self.check_store(si)
+            if self.stores[si][1].lossy():
+                self.flags.add("frame-wider-than-template")
         # independence of storages (copies) - by memory
         for a in range(len(self.stores)):
             for b in range(a):
@@ -570,7 +573,12 @@ class StorageHistory(History):
 
     def b_start(self):
         return st.fixed_dictionaries({"si": self._si(), "fi": st.integers(0, len(self.pool) - 1),
-                                      "info": st.booleans()})
+                                      "info": st.booleans(), "lossy": self._rarely()})
+
+    @staticmethod
+    def _rarely():
+        """flag that admits an operation after which a frame is wider than the template"""
+        return st.integers(0, 11).map(lambda v: v == 0)
 
     def b_append(self):
         # inside a session; now and then on a storage without data shape (documented rejection)
@@ -586,7 +594,8 @@ class StorageHistory(History):
             st.fixed_dictionaries({"k": st.just("abs"), "t": st.one_of(
                 st.sampled_from([0.0, 1.0, -1.0, 2.5]), st.floats(-10, 10))}))
         return st.fixed_dictionaries({"si": st.sampled_from(ok), "fi": st.integers(0, len(self.pool) - 1),
-                                      "compatible": st.integers(0, 9).map(lambda v: v < 8), "time": time})
+                                      "compatible": st.integers(0, 9).map(lambda v: v < 8), "time": time,
+                                      "lossy": self._rarely()})
 
     def b_end(self):
         ok = [i for i, (_, m, _) in enumerate(self.stores) if m.open]
@@ -700,13 +709,25 @@ class StorageHistory(History):
     # ---------------------------------------------------------------------------------
     # operations
     # ---------------------------------------------------------------------------------
-    def op_start(self, si, fi, info):
+    def op_start(self, si, fi, info, lossy=False):
         self.ctx = "start_writing"
         si, s, m = self._store(si)
         fi %= len(self.pool)
         tpl = self.src_tpl[fi]
+        if (not lossy and m.mode == "append" and m.frames and tpl.shape == m.data_shape
+                and m.lossy(tpl.dtype)):
+            # the session would keep frames that are wider than its template (see ASSUMPTIONS):
+            # use a pool field of the same data shape with a wide enough dtype instead
+            alt = [j for j, t in enumerate(self.src_tpl)
+                   if t.shape == m.data_shape and not m.lossy(t.dtype)]
+            if not alt:
+                self.flags.add("skip:start:narrower-template")
+                return
+            fi = alt[fi % len(alt)]
+            tpl = self.src_tpl[fi]
         had = len(m.frames)
         mode_before = m.mode
+        prev_tpl = m.template
         rej = m.start(tpl)
         call = (lambda: s.start_writing(self.src[fi], info={"note": fi})) if info else \
             (lambda: s.start_writing(self.src[fi]))
@@ -720,6 +741,14 @@ class StorageHistory(History):
         self.flags.add("start:" + mode_before + (":nonempty" if had else ":empty"))
         if had and m.frames:
             self.flags.add("session-appended-to-existing")
+        if prev_tpl is not None and prev_tpl.dtype != tpl.dtype:
+            self.flags.add("session:" + ("wider" if exact_cast(prev_tpl.dtype, tpl.dtype) else "narrower")
+                           + "-dtype-than-previous")
+            if m.frames:
+                self.flags.add("session:dtype-change-on-kept-frames")
+            if m.cleared:
+                self.flags.add("session:dtype-change-after-clear")
+        m.cleared = False
 
     op_start2 = op_start
 
@@ -731,14 +760,20 @@ class StorageHistory(History):
                 if t.shape == m.data_shape
                 and grid_signature(self.gspecs[t.gidx]) == grid_signature(self.gspecs[m.template.gidx])]
 
-    def op_append(self, si, fi, compatible, time):
+    def op_append(self, si, fi, compatible, time, lossy=False):
         self.ctx = "append"
         si, s, m = self._store(si)
         fi %= len(self.pool)
-        if compatible:
-            ok = self._compatible(m)
-            if ok:
-                fi = ok[fi % len(ok)]
+        ok = self._compatible(m)
+        if not lossy and m.template is not None:
+            # a field that is wider than the template of the session is only appended when
+            # ``lossy`` admits it (see ASSUMPTIONS)
+            exact = [i for i in ok if exact_cast(self.src_tpl[i].dtype, m.template.dtype)]
+            if exact:
+                compatible = compatible or (fi in ok and fi not in exact)
+                ok = exact
+        if compatible and ok:
+            fi = ok[fi % len(ok)]
         tpl = self.src_tpl[fi]
         if time["k"] == "none":
             t_arg, t_model = None, m.next_default_time()
@@ -767,6 +802,9 @@ class StorageHistory(History):
         m.append(self.src_model[fi], t_model)
         call()
         self.flags.add("append")
+        if m.template is not None and tpl.dtype != m.template.dtype:
+            self.flags.add("append:" + ("narrower" if exact_cast(tpl.dtype, m.template.dtype) else "wider")
+                           + "-dtype-than-template")
         if len(m.frames) >= 2 and m.frames[-1][0] == m.frames[-2][0]:
             self.flags.add("times:equal")
         if len(m.frames) >= 2 and m.frames[-1][0] < m.frames[-2][0]:
@@ -795,6 +833,7 @@ class StorageHistory(History):
         else:
             s.clear(clear_data_shape=shape)
         m.clear(bool(shape))
+        m.cleared = True
         if shape:
             self.flags.add("clear:shape")
 
@@ -831,6 +870,19 @@ class StorageHistory(History):
         n = len(m.frames)
         if n == 0:
             return
+        with quiet_if(m.lossy()):
+            out = self._read(si, s, m, n, i, how, j, step)
+        for a in range(len(out)):
+            for b in range(a):
+                if out[a][1] is out[b][1] or np.shares_memory(out[a][1]._data_full, out[b][1]._data_full):
+                    self.fail("fresh", f"fields returned by one {how} read share memory", si)
+        for k, f in out[-2:]:
+            if exact_cast(m.frames[k][1].dtype, m.template.dtype):
+                # (a read field has the dtype of the template)
+                self.reads.append([f, m.frames[k][1].astype(m.template.dtype), m.template, False])
+        del self.reads[:-self.MAX_READS]
+
+    def _read(self, si, s, m, n, i, how, j, step):
         out = []
         if how == "index":
             if -n <= i < n:
@@ -866,13 +918,7 @@ class StorageHistory(History):
             out = [(k, f) for k, (_, f) in enumerate(got)]
         for k, f in out:
             self.check_field(f, m.template, m.frames[k][1], f"{how} -> frame {k}", si)
-        for a in range(len(out)):
-            for b in range(a):
-                if out[a][1] is out[b][1] or np.shares_memory(out[a][1]._data_full, out[b][1]._data_full):
-                    self.fail("fresh", f"fields returned by one {how} read share memory", si)
-        for k, f in out[-2:]:
-            self.reads.append([f, np.array(m.frames[k][1]), m.template, False])
-        del self.reads[:-self.MAX_READS]
+        return out
 
     def op_mutate_read(self, ri, how, v):
         self.ctx = "mutate_read"
@@ -947,6 +993,8 @@ class StorageHistory(History):
             return
         if isinstance(fid, str) and any(mm["label"] == ANY for mm in m.template.members):
             return  # labels of arithmetic results are not documented
+        if m.lossy():
+            return  # reads through a narrower template are not held to the values (ASSUMPTIONS)
         k = self._resolve_member(m.template, fid)
         if k is None:
             if isinstance(fid, str):
@@ -1022,7 +1070,10 @@ class StorageHistory(History):
         self.ctx = "copy" if func == "copy" else "apply:" + func
         si, s, m = self._store(si)
         tpl = m.template
-        const_field = build_field(self.pool[0], self.grids, self.src_model[0], self.dtype)
+        if m.lossy():
+            self.flags.add("skip:apply:frame-wider-than-template")
+            return  # the fields handed to the function are not held to the values (ASSUMPTIONS)
+        const_field = build_field(self.pool[0], self.grids, self.src_model[0], self.pool_dtype[0])
         if func == "member0" and (tpl is None or not tpl.is_coll):
             func = "identity"
         funcs = {
@@ -1039,19 +1090,23 @@ class StorageHistory(History):
             call = (lambda: s.copy()) if out is None else (lambda: s.copy(out=out_s))
         else:
             call = (lambda: s.apply(funcs[func])) if out is None else (lambda: s.apply(funcs[func], out=out_s))
-        # model of the transformation
+        # model of the transformation: the function sees every frame as a field of the template's
+        # dtype; the first result is the template of the output, every result keeps its own dtype
+        seen = [] if tpl is None else [[t, a.astype(tpl.dtype)] for t, a in m.frames]
         if not m.frames:
             new_tpl, frames = None, []
         elif func in ("copy", "identity"):
-            new_tpl, frames = tpl, [[t, np.array(a)] for t, a in m.frames]
+            new_tpl, frames = tpl, seen
         elif func == "double":
-            new_tpl, frames = tpl.with_labels(ANY, ANY), [[t, 2 * a] for t, a in m.frames]
+            frames = [[t, 2 * a] for t, a in seen]
+            new_tpl = tpl.with_labels(ANY, ANY).with_dtype(frames[0][1].dtype)
         elif func == "add_time":
-            new_tpl, frames = tpl.with_labels(ANY, ANY), [[t, a + t] for t, a in m.frames]
+            frames = [[t, a + t] for t, a in seen]
+            new_tpl = tpl.with_labels(ANY, ANY).with_dtype(frames[0][1].dtype)
         elif func == "member0":
             mm = tpl.members[0]
             new_tpl = tpl.member(0)
-            frames = [[t, np.array(a[mm["rows"][0]:mm["rows"][1]].reshape(mm["shape"]))] for t, a in m.frames]
+            frames = [[t, np.array(a[mm["rows"][0]:mm["rows"][1]].reshape(mm["shape"]))] for t, a in seen]
         else:
             new_tpl = self.src_tpl[0]
             frames = [[t, np.array(self.src_model[0])] for t, _ in m.frames]
@@ -1078,8 +1133,8 @@ class StorageHistory(History):
             self.fail("out", "apply/copy did not return the storage given as `out`", si)
         if not isinstance(child, MemoryStorage):
             self.fail("class", f"apply/copy returned {type(child)}", si)
-        if new_tpl is not None and new_tpl.dtype != np_dtype(self.dtype):
-            raise AssertionError("model dtype")
+        if tpl is not None and new_tpl is not None and tpl.dtype != new_tpl.dtype:
+            self.flags.add("apply:dtype-change")
         self.stores.append([child, cm, self.ctx])
         self.flags.add(self.ctx + ("" if out is None else ":out"))
         if m.frames:
@@ -1109,12 +1164,17 @@ class StorageHistory(History):
             "times:decreasing", "session-appended-to-existing", "reject:start:shape",
             "reject:start:readonly", "reject:append:no-shape", "reject:append:grid",
             "reject:append:shape", "extract_field:duplicate-label", "extract_time_range:proper-subset",
-            "extract_time_range:equal-times", "read:slice"]
+            "extract_time_range:equal-times", "read:slice",
+            "session:wider-dtype-than-previous", "session:narrower-dtype-than-previous",
+            "session:dtype-change-on-kept-frames", "session:dtype-change-after-clear",
+            "append:narrower-dtype-than-template", "append:wider-dtype-than-template",
+            "frame-wider-than-template", "apply:dtype-change"]
 
     def record(self):
         f = self.flags
         m = self.stores[0][1]
         labels = ["route:" + self.init["route"], "mode:" + self.init["mode"], "dtype:" + self.dtype,
+                  "pool-dtypes:" + ("mixed" if len(set(self.pool_dtype)) > 1 else "single"),
                   "template:" + (m.template.kind if m.template is not None else "none")]
         labels += [x for x in self.KEEP if x in f]
         for short in ("extract_field", "view_field", "copy", "apply"):
